@@ -247,6 +247,15 @@ def wl_parser(ctx, config):
                 pcase(s + b'\x00', "length+1"); pcase(s[:-1], "length-1"); pcase(s + bytes(32), "length+32"); pcase(s[:-32], "length-32")
     for L in ctx.mine(range(0, 70)):
         pcase(pools.rbytes(rng, L), "random_short")
+    # every length around the canonical one for small input counts and every selection size
+    for nin in ctx.mine(list(range(0, 10))):
+        bl = (nin + 7) // 8
+        for used in range(0, nin + 1):
+            bm = bytearray(bl)
+            for j in range(used): bm[j // 8] |= 1 << (j % 8)
+            body = bytes([nin, 0]) + bytes(bm) + pools.rbytes(rng, 32 * (2 + used) + 40)
+            canon = 2 + bl + 32 * (1 + used)
+            for L in range(max(0, canon - 40), canon + 41): pcase(body[:L], "length_sweep")
 
 def run(ctx):
     for config in ctx.cfgs():
